@@ -105,6 +105,7 @@ pub fn orchestrate<P: Prop>(tier: Tier) -> i32 {
         let child = Command::new(bin_for(profile))
             .args(["worker", id, tier.name(), "--seed", &wseed.to_string(), "--widx", &widx.to_string(), "--nw", &nw.to_string(), "--cases", &n.to_string(), "--profile", profile, "--out", out.to_str().unwrap(), "--journal", journal.to_str().unwrap()])
             .args(if *widx == 0 { vec!["--selfcheck"] } else { vec![] })
+            .args(if profile != "rel" { vec!["--no-fixed"] } else { vec![] })
             .stdout(Stdio::null())
             .stderr(Stdio::inherit())
             .spawn();
